@@ -30,6 +30,10 @@ type Fault struct {
 	Silent bool   `json:"silent,omitempty"` // after the close, writes are swallowed (ECONNRESET on read) instead of EPIPE
 }
 
+// StatusNotStoredOnReplace is memcached's NOT_STORED (0x05) as a planned refusal: it fires
+// only when the addressed backend request is a REPLACE / REPLACEQ (see Proc).
+const StatusNotStoredOnReplace uint16 = 0x05
+
 func (f Fault) String() string {
 	switch f.Kind {
 	case "status":
@@ -320,6 +324,12 @@ func (w *World) procOne(b *BackendConn) {
 	}
 	if faulty && f.Kind == "status" && (req.Op == mcfake.OpNoop || req.Op == mcfake.OpVersion || req.Op == mcfake.OpQuit) {
 		// memcached has no way to refuse these: the planned refusal does not happen
+		delete(t.Faults, idx)
+		faulty = false
+	}
+	if faulty && f.Kind == "status" && f.Status == StatusNotStoredOnReplace && req.Op != mcfake.OpReplace && req.Op != mcfake.OpReplQ {
+		// NOT_STORED is a refusal only in answer to a replace; to any other command it would
+		// be a (false) statement about the key: the planned refusal does not happen
 		delete(t.Faults, idx)
 		faulty = false
 	}
